@@ -17,7 +17,7 @@
    than 2^62 log entries and 2^63 puts; notifications enabled (NewDB's default). *)
 From Coq Require Import List NArith ZArith Bool Sorting.Sorted.
 From Oxia.Db Require Import Types Bytes Keys Kv Sessions Indexes Notifications Write Read Spec KvProofs Proofs_C12
-     NotifStream C17_Batch Proofs_C17.
+     NotifStream C17_Batch C17_Cover Proofs_C17.
 Import ListNotations.
 Open Scope Z_scope.
 
@@ -55,6 +55,32 @@ Theorem c17_batch_describes_changes : forall cfg ops req ts st' resp,
     (forall k n, nm_get nm k = Some n -> is_internal k = false).
 Proof. exact batch_of_request_reachable. Qed.
 Print Assumptions c17_batch_describes_changes.
+
+(* "Describing exactly": the batch determines what happened to every user key.  A key inside a range the batch
+   reports holds no record afterwards; otherwise CREATED v / MODIFIED v under the key mean it holds a record with
+   version v, DELETED that it holds none, and a key the batch does not mention holds what it held before. *)
+Theorem c17_batch_covers_every_change : forall cfg ops req ts st' resp,
+  ops_user ops -> user_request req -> ops_small (ops ++ [HWrite req ts]) ->
+  process_write wrapper_callbacks cfg (h_st (hrun cfg ops)) req (h_next (hrun cfg ops)) ts = (st', Ok resp) ->
+  exists nm,
+    stored_batch st' (h_next (hrun cfg ops)) = Some (mkNBatch (cfg_shard cfg) (h_next (hrun cfg ops)) ts nm) /\
+    forall k, is_internal k = false ->
+      let in_range := exists a b, nm_get nm a = Some (NRangeDeleted b) /\ key_in_range (Some a) (Some b) k = true in
+      (in_range -> uv (st_kv st') k = None) /\
+      (~ in_range -> point_ok (nm_get nm k) (uv (st_kv (h_st (hrun cfg ops))) k) (uv (st_kv st') k)).
+Proof. exact batch_covers_reachable. Qed.
+Print Assumptions c17_batch_covers_every_change.
+
+(* O-17b, DeletedRange as found: an EMPTY range recorded under a key replaced what the batch said about that key
+   (here: put k, then delete-range [k,k): the creation of k disappears); as repaired it stays.  Found on the real
+   DB by the harness verdict notif:change-not-covered; repaired in /repo together with the same-start case. *)
+Theorem c17_range_overwrite_refuted :
+  exists (k : key) (v : Z),
+    key_geb k k = true /\
+    (forall nm, notif_deleted_range_o17b (notif_modified (Some []) k v 0%Z) k k = Some nm -> nm_find nm k <> Some (NCreated v)) /\
+    (forall nm, notif_deleted_range (notif_modified (Some []) k v 0%Z) k k = Some nm -> nm_find nm k = Some (NCreated v)).
+Proof. exact range_overwrite_refuted. Qed.
+Print Assumptions c17_range_overwrite_refuted.
 
 (* Internal keys never appear, for EVERY request and every callback set (session-manager requests and hostile
    ones included): the stored batch is the fold of the request's answers and names no key under "__oxia/". *)
